@@ -113,7 +113,9 @@ EXPORT int vsscanf_s(const char *restrict buffer, const char *restrict fmt,
     errno = 0;
     ret = vsscanf(buffer, fmt, ap);
 
-    if (unlikely(ret < 0)) { /* always -1 EOF */
+    /* EOF with errno untouched is the end of the input, a plain status of
+       the call and not a violation: nothing to report then */
+    if (unlikely(ret < 0 && errno != 0)) {
         char errstr[128] = "vsscanf_s: ";
         strcat(errstr, strerror(errno));
         invoke_safe_str_constraint_handler(errstr, NULL, errno);
